@@ -74,6 +74,8 @@ pub fn profile_c17() -> Profile {
     Profile {
         replicas: (1, 2),
         events: (8, 60),
+        // deep two-parent histories under a hundred changes: the receiver's work per byte of input at its worst
+        ladder_prologue_permille: 60,
         mut_classes: vec![FieldExtreme, FieldExtreme, FieldExtreme, DataLeb, SpecMutate, ColumnSplice, BitFlip, Garbage, Coherent],
         fix_checksum_permille: 900,
         ..profile()
